@@ -58,7 +58,34 @@ def oracle_mask(rows, goals):
 
 
 # ------------------------------------------------------------------ generators
+def gen_bigfront(rng):
+    """a large Pareto front (antichain of 16-90 rows in >= 3 varying columns) where every front row is the SOLE dominator of one
+    other row: exercises the window / block-minima bookkeeping of the sort-filter-skyline at every window position"""
+    nf = rng.choice([16, 17, 31, 32, 33, 48, 49, 64, 65, 90])
+    d = rng.randint(3, 6)
+    goals = [rng.choice(["min", "min", "max"]) for _ in range(d)]
+    sgn = [1.0 if g == "min" else -1.0 for g in goals]
+    perm = list(range(nf))
+    rng.shuffle(perm)
+    front = []
+    for i in range(nf):
+        r = [float(i), float(nf - i)] + [float(rng.randint(0, 2)) for _ in range(d - 2)]
+        front.append(r)
+    rows = []
+    for i in perm:
+        rows.append([sgn[k] * v for k, v in enumerate(front[i])])
+    for i in rng.sample(range(nf), rng.randint(nf // 2, nf)):
+        r = list(front[i])
+        r[rng.randrange(2, d)] += 1.0        # worse in one of the free columns only: dominated by front[i] and by nothing else
+        rows.append([sgn[k] * v for k, v in enumerate(r)])
+    rng.shuffle(rows)
+    dtype = rng.choice(["float32", "float64"])
+    return rows, goals, dtype, "bigfront"
+
+
 def gen_matrix(rng, big=False):
+    if rng.random() < 0.12:
+        return gen_bigfront(rng)
     kind = rng.choice(["small", "small", "wide", "inf", "ties", "sumtie", "pf", "mixed"])
     n = rng.choice([2, 3, 4, 5, 8, 12, 20, 33, 40]) if not big else rng.choice([64, 100, 150, 300])
     d = rng.randint(1, 8 if not big else 6)
